@@ -149,12 +149,25 @@ def kindmix_sources():
     return out
 
 
-def macro_sources():
+# names a formatter may treat specially: the macros of std / core, log, tracing, anyhow, and
+# a few that certainly are nobody's special case
+MACRO_NAMES = ["assert", "assert_eq", "assert_ne", "cfg", "column", "compile_error", "concat", "dbg",
+               "debug_assert", "debug_assert_eq", "debug_assert_ne", "env", "eprint", "eprintln",
+               "file", "format", "format_args", "include", "include_bytes", "include_str", "line",
+               "matches", "module_path", "option_env", "panic", "print", "println", "stringify",
+               "thread_local", "todo", "try", "unimplemented", "unreachable", "vec", "write",
+               "writeln", "trace", "debug", "info", "warn", "error", "log", "event", "span",
+               "bail", "ensure", "anyhow", "lazy_static", "my_mac", "foo"]
+ATTR_NAMES = ["fail", "derive", "cfg", "cfg_attr", "doc", "allow", "deprecated", "inline", "test",
+              "must_use", "repr", "error", "serde", "my_attr"]
+
+
+def macro_sources(names=None):
     """Macro-call statements whose argument layout flips (one line / format-string special
     layout / vertical) as a padding identifier grows.  -> (name, text)"""
     out = []
-    macs = ["assert", "assert_eq", "assert_ne", "debug_assert_eq", "write", "writeln", "println",
-            "format", "vec", "matches", "panic", "my_mac", "info", "eprintln"]
+    macs = names or ["assert", "assert_eq", "assert_ne", "debug_assert_eq", "write", "writeln",
+                     "println", "format", "vec", "matches", "panic", "my_mac", "info", "eprintln"]
     for m in macs:
         for n in (1, 9, 17, 25, 33, 41, 49):
             a = "a" * n
@@ -162,4 +175,22 @@ def macro_sources():
                         f"fn f() {{\n    {m}!({a}, bbbbbbbb, \"text {{}} {{}}\", cccccccc, dddddddd);\n}}\n"))
             out.append((f"gen/macexpr_{m}_{n}",
                         f"fn f() {{\n    let v = {m}!({a}, bbbbbbbb, \"text {{}} {{}}\", cccccccc, dddddddd);\n}}\n"))
+    return out
+
+
+def name_sources():
+    """Sources whose layout may depend on a NAME looked up in a table (special-case macros and
+    attributes): every name x paddings around the fit boundaries.  -> (name, text)"""
+    out = []
+    for m in MACRO_NAMES:
+        for n in (1, 17, 33, 49):
+            a = "a" * n
+            out.append((f"gen/name_mac_{m}_{n}",
+                        f"fn f() {{\n    {m}!(\"text {{}} {{}} {{}}\", {a}, bbbbbbbb, cccccccc, dddddddd);\n"
+                        f"    {m}!({a}, bbbbbbbb, \"text {{}} {{}}\", cccccccc, dddddddd);\n}}\n"))
+    for t in ATTR_NAMES:
+        for n in (1, 25, 49):
+            a = "a" * n
+            out.append((f"gen/name_attr_{t}_{n}",
+                        f"#[{t}(display = \"text {{}} {{}}\", {a}, bbbbbbbb, cccccccc, dddddddd)]\nstruct S;\n"))
     return out
